@@ -41,7 +41,6 @@ from gen import cprog  # noqa: E402
 CORPUS = os.path.join(common.VERIF, "corpus", "C10")
 GCC = "gcc -std=c11 -pedantic-errors -fsyntax-only"
 CLANG = "clang-14 -std=c11 -pedantic-errors -fsyntax-only"
-FID_COND_ABORT = "cond-nonscalar-abort"     # `s ? 1 : 2` with a struct s: assertion failure in funcjnz, no diagnostic
 DIAG_ANY = re.compile(r"^[^:\n]+:\d+:\d+: error: \S|^[^:\n ]+: \S", re.M)
 
 
@@ -884,13 +883,10 @@ def m_incdec_incomplete(L, rng):
     return L[:i] + ["\t" + d + " " + op] + L[i:], "++/-- on a pointer to an incomplete or function type: %s %s" % (d, op)
 
 
-FID_BY_KIND = {"eq-nullconst-arith": "eq-nullptr-const-vs-arith", "ptr-sub-incomplete": "ptr-sub-right-incomplete",
-               "incdec-incomplete": "incdec-pointer-incomplete"}
-
 MUTATORS = [
     ("eq-nullconst-arith", m_eq_nullconst, [S("expr.c", "mkbinaryexpr", "invalid operands to '%s' operator")]),
     ("ptr-sub-incomplete", m_ptr_sub_incomplete, [S("expr.c", "mkbinaryexpr", "pointer operand to '-' must be to complete object type")]),
-    ("incdec-incomplete", m_incdec_incomplete, [S("expr.c", "mkbinaryexpr", "pointer operand to '+' must be to complete object type")]),
+    ("incdec-incomplete", m_incdec_incomplete, [S("expr.c", "mkincdecexpr", "pointer operand of '%s' operator must be to complete object type")]),
     # (name, function, diagnostic sites of which at least one must exist in the current sources)
     ("undeclared-identifier", m_undeclared, [S("expr.c", "primaryexpr", "undeclared identifier: %s")]),
     ("duplicate-case", m_dupcase, [S("qbe.c", "switchcase", "multiple 'case' labels with same value")]),
@@ -922,7 +918,8 @@ MUTATORS = [
     ("integer-operator-on-float", m_mod_float, [S("expr.c", "mkbinaryexpr", "operands to '%%' operator must be integer"),
                                                 S("expr.c", "mkbinaryexpr", "operands to '%s' operator must be integer")]),
     ("struct-as-scalar", m_struct_arith, [S("expr.c", "mkbinaryexpr", "invalid operands to '+' operator"),
-                                          S("expr.c", "castexpr", "cast operand must have scalar type")]),
+                                          S("expr.c", "castexpr", "cast operand must have scalar type"),
+                                          S("expr.c", "condexpr", "first operand of conditional operator must have scalar type")]),
     ("missing-semicolon", m_drop_semicolon, [S("stmt.c", "stmt", "expected TSEMICOLON after expression statement")]),
     ("missing-paren", m_drop_paren, [S("expr.c", "postfixexpr", "expected TCOMMA or ')' after function call argument")]),
     ("incomplete-type", m_incomplete, [S("decl.c", "defineobj", "object '%s' has incomplete type"),
@@ -964,7 +961,7 @@ def run_mutations(ck, bt, cc, hosts, judge, sitekeys, per_kind):
         name, text, what = jobs[i]
         stats[name]["gcc_and_clang_reject"] += 1
         gmsg = [ln for ln in rg[i][1].splitlines() if "error" in ln][:1]
-        fid = FID_COND_ABORT if name == "struct-as-scalar" and "? 1 : 2" in what else FID_BY_KIND.get(name)
+        fid = None
         ok = judge.result("mutation", name + ("/" + fid if fid else ""), what, "rewrite", text, r, oracle=True, fid=fid,
                           extra={"rewrite": what, "gcc": gmsg[0][-200:] if gmsg else ""})
         stats[name]["cproc_rejects"] += ok
